@@ -1,10 +1,71 @@
-import AcraModel.Basic.Bytes
-/-! Driver ops for C01. -/
+import AcraModel.Envelope.Detector
+import AcraModel.Crypto.Shim
+/-! Driver ops for the envelope models (used by C01, C02, C03, C11, C14, C15). -/
 namespace Driver.C01
-open AcraModel
+open AcraModel AcraModel.Envelope
+
+def C := shimOps
+
+/-- list of byte strings: `_` = empty list, otherwise comma separated hex (`-` = empty string) -/
+def parseList (s : String) : Option (List Bytes) :=
+  if s = "_" then some [] else (s.splitOn ",").mapM ofHex
+
+def parseOpt (s : String) : Option (Option Bytes) :=
+  if s = "none" then some none else (ofHex s).map some
+
+def parseOptList (s : String) : Option (Option (List Bytes)) :=
+  if s = "none" then some none else (parseList s).map some
+
+def parseKind (s : String) : Option Kind :=
+  if s = "struct" then some .struct else if s = "block" then some .block else none
+
+def parseKV (pub privs sym syms : String) : Option KeyView := do
+  pure { pub := ← parseOpt pub, privs := ← parseOptList privs, sym := ← parseOpt sym, syms := ← parseOptList syms }
+
+def outHex (o : Out Bytes) : String := o.render hexOf
+def outUnit (o : Out Unit) : String := o.render (fun _ => "")
+def trimr (s : String) : String := s.trimAscii.toString
+
+def scanStr : ScanOut → String
+  | .ok b _ => s!"ok {hexOf b}"
+  | .fatal => "fatal"
+  | .panic => "panic"
 
 def handle (op : String) (args : List String) : Option String :=
   match op, args with
+  | "struct.create", [pub, ctx, m, rnd] => do
+      pure (outHex (createStruct C (← ofHex pub) (← ofHex ctx) (← ofHex m) (← ofHex rnd)))
+  | "struct.validate", [d] => do pure (trimr (outUnit (validateStruct (← ofHex d))))
+  | "struct.extract", [d] => do
+      pure ((extractStruct (← ofHex d)).render fun (n, b) => s!"{n} {hexOf b}")
+  | "struct.decrypt", [privs, ctx, d] => do
+      pure (outHex (decryptStructRotated C (← ofHex ctx) (← ofHex d) (← parseList privs)))
+  | "block.create", [key, ctx, m, rnd] => do
+      pure (outHex (createBlock C (← ofHex key) (← ofHex ctx) (← ofHex m) (← ofHex rnd)))
+  | "block.extract", [d] => do
+      pure ((extractBlock (← ofHex d)).render fun (n, b) => s!"{n} {hexOf b}")
+  | "block.decrypt", [keys, ctx, d] => do
+      pure (outHex (decryptBlock C (← parseList keys) (← ofHex ctx) (← ofHex d)))
+  | "container.ser", [e, id] => do
+      pure (outHex (serialize (← ofHex e) (UInt8.ofNat (← id.toNat?))))
+  | "container.deser", [d] => do
+      pure ((deserialize (← ofHex d)).render fun (b, id) => s!"{hexOf b} {id.toNat}")
+  | "container.extract", [d] => do
+      pure ((extractContainer (← ofHex d)).render fun (n, b) => s!"{n} {hexOf b}")
+  | "handler.match", [d] => do pure (toString (registryMatch (← ofHex d)))
+  | "handler.matchkind", [k, d] => do pure (toString (matchKind (← parseKind k) (← ofHex d)))
+  | "handler.protect", [k, pub, privs, sym, syms, d, rnd] => do
+      pure (outHex (protect C (← parseKV pub privs sym syms) (← parseKind k) (← ofHex d) (← ofHex rnd)))
+  | "handler.protectcfg", [k, pub, privs, sym, syms, d, rnd] => do
+      pure (outHex (protect C (← parseKV pub privs sym syms) (← parseKind k) (← ofHex d) (← ofHex rnd)))
+  | "handler.reveal", [pub, privs, sym, syms, d] => do
+      pure (outHex (reveal C (← parseKV pub privs sym syms) (← ofHex d)))
+  | "detector.oncolumn", [pub, privs, sym, syms, d] => do
+      let kv ← parseKV pub privs sym syms
+      pure (scanStr (onColumn [decryptCallback C kv] (← ofHex d)))
+  | "detector.compat", [pub, privs, sym, syms, d] => do
+      let kv ← parseKV pub privs sym syms
+      pure (scanStr (onColumnCompat [decryptCallback C kv] (← ofHex d)))
   | _, _ => none
 
 end Driver.C01
